@@ -19,7 +19,7 @@ def streams(tier, rng, P, only=None, cases=None):
         cs = []
         n = 6000 if big else 800
         for i in range(n):
-            tb = rng.choice([48, 96, 96, 120, 480, 960])
+            tb = rng.choice([48, 96, 96, 120, 480, 960, 50, 49, 90, 100, 250, 333])      # also time bases whose whole note is no multiple of the denominator
             num = rng.choice([2, 3, 4, 5, 6, 7, 9, 12]); den = rng.choice([2, 4, 8, 16])
             sh = rng.choice([0, 0, 0, 1, 2, -1, 5])
             m = rng.randint(1, 60); b = rng.randint(1, num); t = rng.randint(0, 4 * tb // den - 1) if rng.random() < 0.8 else rng.randint(0, 2000)
